@@ -86,7 +86,46 @@ PACK_ASSUME = ["arena.go gamma/pi (order- and prefix-preserving name table, mode
                "archive/tar + compress/gzip readers (slug read back independently of go-slug)", "TLC",
                "worker subprocess watchdog (12 s for operations that take milliseconds)"]
 
+ADDR_JUDGE = {"module": "Judge_Addr", "cfg": "Judge_Addr.cfg"}
+
+
+def addr_stages(prop, tier, seed):
+    q = tier == "quick"
+    alg = dict(name="algebra", module="Addr", cfg="MC_Addr.cfg", family="addr", judge=ADDR_JUDGE, exhaustive=True,
+               overrides={"Part": '"algebra"', "MaxSub": "2" if q else "4", "MaxRel": "2" if q else "3", "MaxUps": "3" if q else "5"},
+               vh_args=["-props", prop], slices=4 if q else 9, timeout=3000)
+    syn = dict(name="syntax", module="Addr", cfg="MC_Addr.cfg", family="addr", judge=ADDR_JUDGE, exhaustive=True,
+               overrides={"Part": '"syntaxq"' if q else '"syntax"'}, vh_args=["-props", prop], slices=8 if q else 16, timeout=3000)
+    if prop == "C11":
+        return [alg]
+    if prop == "C07":
+        return [syn]
+    if prop == "C06":
+        return [syn, alg]
+    raise KeyError(prop)
+
+
+ADDR_ASSUME = ["net/url, terraform-registry-address and go-versions are environment (their results are only constrained by the laws)",
+               "TLC string concatenation = Go string concatenation", "TLC"]
+
 PROPS = {
+    "C06": dict(stages=addr_stages, key="c06", wkey="w06", kfkey="kf06",
+                rule="cases = every address string of the field grammar of spec/Addr.tla (type x scheme x userinfo x host x path x "
+                     "query x fragment x sub-path, shorthands, registry and versioned registry addresses) and every value derived "
+                     "by resolution / joining / Versioned / SourceAddr; for each value handed out: print, re-parse, ==, print again, "
+                     "package and versioned round trips, equal prints => equal values across the run; non-trivial = accepted",
+                assume=ADDR_ASSUME),
+    "C07": dict(stages=addr_stages, key="c07", wkey="w07", kfkey="kf07",
+                rule="cases as C06 (syntax part), through the parser and through MakeRemoteSource assembled from parts; grammar "
+                     "addresses must be accepted with the predicted accessor record, single-rule violations rejected, and the "
+                     "transport policy (Addr.tla Policy) must hold of the accessor record of anything accepted",
+                assume=ADDR_ASSUME),
+    "C11": dict(stages=addr_stages, key="c11", wkey="w11", kfkey="kf11",
+                rule="cases = all (base, relative) pairs over bases of every kind with sub-paths up to the bound and canonical "
+                     "relative paths (leading ..s then names), absolute second arguments, registry joins, non-canonical spellings "
+                     "(must be rejected), and (base, rel1, rel2) triples for the composition law; expected result strings from "
+                     "RefResolve (segment-stack semantics)",
+                assume=ADDR_ASSUME),
     "C02": dict(stages=pack_stages, key="c02", wkey="w02", kfkey="kf02",
                 rule="cases = (tree, options) pairs of spec/MC_Pack.tla universes; real Pack then real Unpack into an empty "
                      "directory; judged by C02Diffs (RoundTrip.tla) for trees whose links are relative and in-tree; "
